@@ -11,8 +11,28 @@ import time
 
 from vlib import runner
 
-# C18C21_WILD: run the scenarios against another build of wild (used for mutation sanity tests only)
-WILD = os.environ.get("C18C21_WILD", runner.WILD)
+
+
+def wild():
+    """The wild binary to run, resolved at call time: the runner rebinds `runner.WILD` to a private copy
+    after this module is imported. C18C21_WILD: run the scenarios against another build of wild (used for
+    mutation sanity tests only)."""
+    p = os.environ.get("C18C21_WILD") or runner.WILD
+    # scenarios that run as `nobody` must be able to execute it
+    try:
+        d = os.path.dirname(p)
+        if not (os.stat(d).st_mode & 0o005 == 0o005):
+            os.chmod(d, os.stat(d).st_mode | 0o055)
+        if not (os.stat(p).st_mode & 0o005 == 0o005):
+            os.chmod(p, os.stat(p).st_mode | 0o055)
+    except OSError:
+        pass
+    return p
+
+
+def wild_display():
+    """Stable path for replay instructions (the private copy disappears with the scratch directory)."""
+    return os.environ.get("C18C21_WILD") or os.path.join(runner.TARGET, "wild", "debug", "wild")
 NOBODY = 65534
 
 ASM = {
@@ -224,7 +244,7 @@ def run_wild(args, cwd, env=None, uid=None, strace_out=None, timeout=60, trace_w
     e = {"PATH": os.environ.get("PATH", "/usr/bin:/bin"), "HOME": "/tmp"}
     if env:
         e.update(env)
-    cmd = [WILD] + list(args)
+    cmd = [wild()] + list(args)
     if strace_out:
         tr = "trace=%file,ftruncate,fchmod,close" + (",write" if trace_write else "")
         cmd = ["strace", "-f", "-s", "256", "-e", tr, "-e", "signal=none", "-o", strace_out] + cmd
@@ -237,7 +257,7 @@ def spawn_wild(args, cwd, env=None):
     e = {"PATH": os.environ.get("PATH", "/usr/bin:/bin"), "HOME": "/tmp"}
     if env:
         e.update(env)
-    return subprocess.Popen([WILD] + list(args), cwd=cwd, env=e, stdout=subprocess.PIPE, stderr=subprocess.PIPE)
+    return subprocess.Popen([wild()] + list(args), cwd=cwd, env=e, stdout=subprocess.PIPE, stderr=subprocess.PIPE)
 
 
 def mk_sandbox(ctx, tag):
